@@ -52,6 +52,10 @@ func At(ll orb.Point, z Zoom) Tile {
 		Z: z,
 	}
 
+	if max := uint32(1<<z) - 1; t.X > max {
+		t.X = max // longitude of exactly 180
+	}
+
 	return t
 }
 
